@@ -2,8 +2,8 @@ import Aiorpcx.Common.Hex
 import Aiorpcx.C03.Model
 /-! Line-protocol driver for the C03 model.
     in : `<repaired|pinned> <internal> <busy> <excessive> <base> ; <slots> <deadline> <throttle> ;
-          <R|N|B|M> <id> <outcome> <dur> ; ...`   (items in arrival order; B/M = request /
-         notification member of the batch)
+          <R|N|B|M> <id> <outcome> <dur> <arrival> ; ...`   (items in arrival order; B/M =
+         request / notification member of the batch)
          outcome: v<n> u<n> e<code>:<msg>:<cost> r<code>:<msg>:<cost> p<code>:<msg> o<n> t
          dv<n> du<n> de<code>:<msg>:<cost> d0 x xe tt b<n>
     out: `alive=.. close=.. errors=.. cost=.. hook=.. lost=a,b replies=id:R<n>|id:E<code>:<msg>,..
@@ -43,12 +43,13 @@ def parseOutcome (s : String) : Option Outcome :=
 
 def parseItem (s : String) : Option TItem :=
   match (s.splitOn " ").filter (· ≠ "") with
-  | [k, i, o, d] => do
+  | [k, i, o, d, a] => do
       let (kind, batch) ←
         (if k == "R" then some (Kind.request, false) else if k == "N" then some (Kind.notification, false)
          else if k == "B" then some (Kind.request, true) else if k == "M" then some (Kind.notification, true)
          else none)
-      pure { item := { id := (← i.toNat?), kind, batch, outcome := (← parseOutcome o) }, dur := (← d.toNat?) }
+      pure { item := { id := (← i.toNat?), kind, batch, outcome := (← parseOutcome o) },
+             dur := (← d.toNat?), arr := (← a.toNat?) }
   | _ => none
 
 def replyStr : Nat × Reply → String
